@@ -138,12 +138,41 @@ RootDefs(T, ctx) ==
                                fields |-> << MFld(1, "f", T, FALSE) >>],
                               [name |-> "RootC", kind |-> "struct", ro |-> FALSE, inner |-> "Root", fields |-> <<>>] >>
 
+\* records with TWO container fields: templates that declare helper variables per field
+\* (length counters, loop indices) interact only when several such fields share a record
+PairTypes == << [t |-> M("string", P("int32")), sup |-> <<>>, tag |-> "map"],
+                [t |-> A(M("string", P("int32"))), sup |-> <<>>, tag |-> "arr.map"],
+                [t |-> A(P("int32")), sup |-> <<>>, tag |-> "arr"],
+                [t |-> M("string", A(P("int32"))), sup |-> <<>>, tag |-> "map.arr"],
+                [t |-> P("string"), sup |-> <<>>, tag |-> "string"],
+                [t |-> R("Inner"), sup |-> <<InnerDef>>, tag |-> "struct"],
+                [t |-> M("uint32", R("Inner")), sup |-> <<InnerDef>>, tag |-> "map.struct"],
+                [t |-> A(A(P("int32"))), sup |-> <<>>, tag |-> "arr.arr"] >>
+NP == Len(PairTypes)
+NPairSchemas == NP * NP * 2
+PairA(k) == PairTypes[((k \div 2) % NP) + 1]
+PairB(k) == PairTypes[(k \div (2 * NP)) + 1]
+PairSup(k) == IF PairA(k).sup # <<>> THEN PairA(k).sup ELSE PairB(k).sup
+PairDefs(k) ==
+  IF k % 2 = 0
+  THEN << [name |-> "Root", kind |-> "struct", ro |-> FALSE,
+           fields |-> << Fld("f", PairA(k).t), Fld("g", PairB(k).t), Fld("post", P("uint8")) >>] >>
+  ELSE << [name |-> "Root", kind |-> "message",
+           fields |-> << MFld(1, "f", PairA(k).t, FALSE), MFld(2, "g", PairB(k).t, FALSE) >>] >>
+
 NShapes == Len(Shapes)
 NCtx == Len(Ctxs)
-NSchemas == NShapes * NCtx
-ShapeOf(sid) == Shapes[((sid - 1) \div NCtx) + 1]
-CtxOf(sid) == Ctxs[((sid - 1) % NCtx) + 1]
-SchemaOf(sid) == ShapeOf(sid).sup \o RootDefs(ShapeOf(sid).t, CtxOf(sid))
+NBase == NShapes * NCtx
+NSchemas == NBase + NPairSchemas
+IsPair(sid) == sid > NBase
+ShapeOf(sid) == IF IsPair(sid)
+                THEN [t |-> PairA(sid - NBase - 1).t, sup |-> PairSup(sid - NBase - 1),
+                      tag |-> "pair<" \o PairA(sid - NBase - 1).tag \o "," \o PairB(sid - NBase - 1).tag \o ">"]
+                ELSE Shapes[((sid - 1) \div NCtx) + 1]
+CtxOf(sid) == IF IsPair(sid) THEN (IF (sid - NBase - 1) % 2 = 0 THEN "pairstruct" ELSE "pairmsg")
+              ELSE Ctxs[((sid - 1) % NCtx) + 1]
+SchemaOf(sid) == IF IsPair(sid) THEN PairSup(sid - NBase - 1) \o PairDefs(sid - NBase - 1)
+                 ELSE ShapeOf(sid).sup \o RootDefs(ShapeOf(sid).t, CtxOf(sid))
 RootT == R("Root")
 
 -----------------------------------------------------------------------------
